@@ -21,6 +21,7 @@ from lxml import etree
 import xs_gen as G
 import xs_lib as X
 from xs_lib import min_len_flag
+from sdc11073.mdib import descriptorcontainers, statecontainers
 from sdc11073.namespaces import PrefixesEnum
 from sdc11073.schema_resolver import SchemaResolver
 from sdc11073.xml_types import xml_structure as xs
@@ -113,23 +114,208 @@ def absent_ok(obj, obj2, out, path='', depth=0):
 
 
 def short(b, n=700):
+    if isinstance(b, bytes) and b.startswith(b'<'):
+        try:                     # a document: drop the unused namespace declarations for the report
+            t = etree.fromstring(b)
+            etree.cleanup_namespaces(t)
+            b = etree.tostring(t)
+        except etree.XMLSyntaxError:
+            pass
     s = b.decode('utf-8', 'replace') if isinstance(b, bytes) else str(b)
     return s if len(s) <= n else s[:n] + '...'
 
 
+# ---- the clauses that need more than one document / more than one write (added after seeded defects were missed)
+def tob(node):
+    return etree.tostring(node)
+
+
+def struct_children(node, obj):
+    """(sub node, sub value, path) for every structured member of obj whose element(s) can be matched in node"""
+    for (name, p), raw in zip(X.class_props(type(obj)), X.raw_fields(obj)):
+        qn = getattr(p, '_sub_element_name', None)
+        if qn is None or isinstance(p, xs._AttributeBase):  # noqa: SLF001
+            continue
+        if X.is_struct(raw):
+            sub = node.find(qn)
+            if sub is not None:
+                yield sub, raw, f'.{name}'
+        elif isinstance(raw, list) and raw and all(X.is_struct(x) for x in raw):
+            subs = node.findall(qn)
+            if len(subs) == len(raw):
+                for i, (s, x) in enumerate(zip(subs, raw)):
+                    yield s, x, f'.{name}[{i}]'
+
+
+def slot_present(node, p):
+    """True / False: the attribute / element of descriptor p occurs in node; None: p is bound to the node itself"""
+    if isinstance(p, xs._AttributeBase):  # noqa: SLF001
+        return node.get(p._attribute_name) is not None  # noqa: SLF001
+    qn = p._sub_element_name  # noqa: SLF001
+    if qn is None:
+        return None
+    return node.find(qn) is not None
+
+
+def absent_expect(p):
+    """acceptable canonical values of a member whose attribute / element is absent"""
+    d, im = p._default_py_value, p._implied_py_value  # noqa: SLF001
+    if isinstance(p, (xs._ElementListProperty, xs._AttributeListBase, xs.ExtensionNodeProperty)):  # noqa: SLF001
+        return [X.canon([])]
+    if im is not None:
+        return [X.canon(im)]
+    if isinstance(p, xs._AttributeBase):  # noqa: SLF001   (the attribute readers report None, the doc string promises the default)
+        return [None] + ([X.canon(d)] if d is not None else [])
+    return [X.canon(d)]
+
+
+def absent_members(node, obj, out, path='', depth=0):
+    """the clause `absent optional parts yield the implied / default value`, evaluated on (document, value read
+    from it) - independent of how the document was made and of what the instance held before"""
+    if depth > 6 or not X.is_struct(obj):
+        return
+    for name, p in X.class_props(type(obj)):
+        if isinstance(p, xs.CurrentTimestampAttributeProperty) or slot_present(node, p) is not False:
+            continue
+        seen = X.canon(getattr(obj, name))
+        want = absent_expect(p)
+        if seen not in want:
+            out.append(('member absent in the XML is not the implied/default value', f'{path}.{name}',
+                        {'seen': short(str(seen), 200), 'expected': short(str(want[-1]), 200)}))
+        raw = obj.__dict__.get(p._local_var_name)  # noqa: SLF001
+        d = p._default_py_value  # noqa: SLF001
+        if raw is not None and raw is d and X.is_mutable(d):
+            out.append(('absent member is the class-level default object', f'{path}.{name}', {}))
+    for sub, val, pth in struct_children(node, obj):
+        absent_members(sub, val, out, path + pth, depth + 1)
+
+
+def thin(node, obj, gen, rng, p_del, depth=0):
+    """remove optional attributes / elements (optional for the library AND for the schema particle) from the
+    document itself; returns the number of removed parts"""
+    cls = type(obj)
+    if cls in G.MEX_SECTIONS:
+        return 0
+    ct = gen.ctype_of(cls)
+    removed = 0
+    for name, p in X.class_props(cls):
+        if isinstance(p, xs.CurrentTimestampAttributeProperty) or not p.is_optional or not slot_present(node, p):
+            continue
+        part = gen.particle(ct, p)
+        if part is not None and ((part[0] == 'a' and part[1][1]) or (part[0] == 'e' and part[1].min >= 1)):
+            continue
+        if rng.random() >= p_del:
+            continue
+        if isinstance(p, xs._AttributeBase):  # noqa: SLF001
+            an = p._attribute_name  # noqa: SLF001
+            del node.attrib[an.text if isinstance(an, etree.QName) else an]
+            removed += 1
+        else:
+            for k in node.findall(p._sub_element_name):  # noqa: SLF001
+                node.remove(k)
+                removed += 1
+    if depth < 2:
+        for sub, val, _ in list(struct_children(node, obj)):
+            removed += thin(sub, val, gen, rng, p_del, depth + 1)
+    return removed
+
+
+def diff_member(b1, b2):
+    import re
+    m = re.match(r'</?([\w:.\-]+)', first_diff_tag(b1, b2))
+    return m.group(1) if m else first_diff_tag(b1, b2)
+
+
+PRE_DESCR_VERSION = 37
+
+
+def preset_variants(cls, doc):
+    """from_node variants that construct the instance from a pre-set object before the XML is read"""
+    if issubclass(cls, statecontainers.AbstractStateContainer):
+        descr = descriptorcontainers.AbstractDescriptorContainer(handle='h.pre', parent_handle='p.pre')
+        descr.DescriptorVersion = PRE_DESCR_VERSION
+        yield 'from_node(node, descriptor_container)', cls.from_node(etree.fromstring(doc), descr)
+    elif issubclass(cls, descriptorcontainers.AbstractDescriptorContainer):
+        yield 'from_node(node, parent_handle)', cls.from_node(etree.fromstring(doc), 'p.pre')
+
+
+def write_purity(obj, tag, what, fails, reparse_cls=None, source=None):
+    """write obj twice: both outputs identical, the first output / the value / the document the value was read from
+    unchanged by the (second) write.  Returns the bytes of the first write."""
+    c0 = X.canon(obj)
+    src0 = None if source is None else tob(source)
+    n1 = X.serialise(obj, tag)
+    s1 = tob(n1)
+    if source is not None and tob(source) != src0:
+        fails.append(('writing a value changed the document it was read from', diff_member(src0, tob(source)),
+                      {'value': what, 'document_before': short(src0), 'document_after': short(tob(source))}))
+    n2 = X.serialise(obj, tag)
+    s2 = tob(n2)
+    if s2 != s1:
+        fails.append(('writing the same value twice gives different XML', diff_member(s1, s2),
+                      {'value': what, 'first': short(s1), 'second': short(s2)}))
+    if tob(n1) != s1:
+        fails.append(('an earlier written document changed when the value was written again', diff_member(s1, tob(n1)),
+                      {'value': what, 'first_write': short(s1), 'same_tree_after_second_write': short(tob(n1))}))
+    elif source is not None and tob(source) != src0 and not fails:
+        fails.append(('writing a value changed the document it was read from', diff_member(src0, tob(source)),
+                      {'value': what, 'document_before': short(src0), 'document_after': short(tob(source))}))
+    c1 = X.canon(obj)
+    if c1 != c0:
+        path, a, b = X.canon_diff(c0, c1)
+        fails.append(('writing changed the value that was written', path,
+                      {'value': what, 'before': short(str(a), 200), 'after': short(str(b), 200), 'xml': short(s1)}))
+    if reparse_cls is not None:
+        back = X.canon(X.parse(reparse_cls, n1))
+        if back != c0:
+            path, a, b = X.canon_diff(c0, back)
+            fails.append(('value read from the first written tree (after the second write) differs', path,
+                          {'value': what, 'written': short(str(a), 200), 'read': short(str(b), 200),
+                           'tree_now': short(tob(n1))}))
+    return s1
+
+
+def populated_reads(cls, doc, fresh_canon, targets, fails):
+    """reading doc into an instance that already holds other values = reading it into a fresh instance"""
+    for how, make in targets:
+        try:
+            target = make()
+            node = etree.fromstring(doc)
+            target.update_from_node(node)
+        except Exception as ex:  # noqa: BLE001
+            fails.append((f'update_from_node on a populated instance raises {type(ex).__name__}', last_member(ex),
+                          {'populated': how, 'document': short(doc), 'trace': short(traceback.format_exc()[-600:], 600)}))
+            continue
+        ct = X.canon(target)
+        if ct != fresh_canon:
+            path, a, b = X.canon_diff(fresh_canon, ct)
+            fails.append(('reading into a populated instance differs from reading into a fresh instance', path,
+                          {'populated': how, 'document': short(doc), 'fresh instance': short(str(a), 200),
+                           'populated instance': short(str(b), 200)}))
+        out = []
+        absent_members(node, target, out)
+        for clause, path, det in out:
+            fails.append((clause, path, dict(det, read_into=how, document=short(doc))))
+
+
 def run_classes():
-    rng = random.Random(req['seed'])
+    import hashlib
     types, elems = load_schema_index()
     schema, prefixes = mk_validator(types)
     results = {}
     stats = {}
     digests = []
+
+    def count(k, n=1):
+        stats[k] = stats.get(k, 0) + n
+
     for cls in X.all_classes():
         key = X.class_key(cls)
         if req.get('only') and key not in req['only']:
             continue
         if key in X.NOT_STANDALONE or key.startswith('soapenvelope.'):
             continue
+        rng = random.Random(f'{req["seed"]}:{key}')      # per class: a replay of one class sees the same instances
         res = {'n': 0, 'ok': 0, 'validated': 0, 'fail': [], 'delegated_c18': 0}
         results[key] = res
         try:
@@ -138,17 +324,31 @@ def run_classes():
             res['fail'].append({'clause': 'class cannot be instantiated', 'member': '_props', 'detail': str(ex)})
             continue
         tag, validate = root_tag(cls, types, elems, prefixes)
+        can_update = cls is not X.mex_types.Metadata       # its from_node is not built on update_from_node
+        # a fully populated instance of the class: the "other document" of the first round
+        prev_doc = prev_obj = full_doc = None
+        try:
+            g0 = G.Gen(rng, max_depth=req.get('max_depth', 3))
+            prev_obj = g0.instance(cls, full=True)
+            prev_doc = full_doc = tob(X.serialise(prev_obj, tag))
+        except Exception:  # noqa: BLE001   (reported by the instance loop below, which generates the same way)
+            prev_doc = prev_obj = full_doc = None
         for i in range(req['per_class']):
             gen = G.Gen(rng, max_depth=req.get("max_depth", 3))
             res['n'] += 1
             stage = 'generate'
+            fails = []
             try:
                 obj = gen.instance(cls, full=(i == 0))
                 stage = 'write'
-                node = X.serialise(obj, tag)
-                b1 = etree.tostring(node)
+                b1 = write_purity(obj, tag, 'generated', fails)
                 stage = 'read'
-                obj2 = X.parse(type(obj), etree.fromstring(b1))
+                src = etree.fromstring(b1)
+                src0 = tob(src)
+                obj2 = X.parse(type(obj), src)
+                if tob(src) != src0:
+                    fails.append(('reading changed the document', diff_member(src0, tob(src)),
+                                  {'before': short(src0), 'after': short(tob(src))}))
             except Exception as ex:  # noqa: BLE001
                 res['fail'].append({'clause': f'{stage} raises {type(ex).__name__}', 'member': last_member(ex),
                                     'detail': short(traceback.format_exc()[-900:], 900)})
@@ -166,18 +366,27 @@ def run_classes():
                 bad = True
             else:
                 try:
-                    b2 = etree.tostring(X.serialise(obj2, tag))
+                    b2 = write_purity(obj2, tag, 'read from the first write', fails, reparse_cls=type(obj), source=src)
+                    count('purity_value_from_xml')
                 except Exception as ex:  # noqa: BLE001
                     b2 = f'raises {type(ex).__name__}: {ex}'.encode()
                 if b2 != b1:
                     res['fail'].append({'clause': 'second write differs', 'member': first_diff_tag(b1, b2),
                                         'detail': {'first': short(b1), 'second': short(b2)}})
                     bad = True
+            count('purity_generated_value')
+            if any(isinstance(p, (xs.ExtensionNodeProperty, xs.AnyEtreeNodeListProperty, xs.AnyEtreeNodeProperty))
+                   and raw for (_, p), raw in walk_fields(obj)):
+                count('purity_with_nonempty_extension_or_any')
             out = []
             absent_ok(obj, obj2, out)
             for clause, path in out:
                 res['fail'].append({'clause': clause, 'member': path, 'detail': {'xml': short(b1)}})
                 bad = True
+            out = []
+            absent_members(src, obj2, out)
+            for clause, path, det in out:
+                fails.append((clause, path, dict(det, document=short(b1))))
             if validate:
                 res['validated'] += 1
                 doc = etree.fromstring(b1)
@@ -186,11 +395,75 @@ def run_classes():
                     res['fail'].append({'clause': 'not schema-valid', 'member': xsd_member(err.message),
                                         'detail': {'error': err.message[:400], 'xml': short(b1, 900)}})
                     bad = True
+            # ---- documents with optional parts absent; reading into populated instances
+            try:
+                docs = [('as written', b1)]
+                for p_del, label in ((0.5, 'some optional parts removed'), (1.0, 'all optional parts removed')):
+                    t = etree.fromstring(b1)
+                    n_removed = thin(t, obj2, gen, rng, p_del)
+                    if n_removed == 0:
+                        count('thin_nothing_to_remove')
+                        continue
+                    if validate and not schema.validate(t):
+                        count('thin_not_schema_valid_skipped')
+                        continue
+                    count('thin_documents')
+                    count('thin_removed_parts', n_removed)
+                    docs.append((label, tob(t)))
+                for label, doc in docs:
+                    node = etree.fromstring(doc)
+                    fresh = X.parse(cls, node)
+                    fc = X.canon(fresh)
+                    if label != 'as written':
+                        out = []
+                        absent_members(node, fresh, out)
+                        for clause, path, det in out:
+                            fails.append((clause, path, dict(det, read_into='fresh instance', document=short(doc))))
+                    for how, inst in preset_variants(cls, doc):
+                        count('preset_from_node')
+                        ci = X.canon(inst)
+                        if ci != fc:
+                            path, a, b = X.canon_diff(fc, ci)
+                            fails.append((f'{how.split("(")[0]} with a pre-set object differs from from_node(node)', path,
+                                          {'variant': how, 'document': short(doc), 'from_node(node)': short(str(a), 200),
+                                           'variant gives': short(str(b), 200)}))
+                        out = []
+                        absent_members(etree.fromstring(doc), inst, out)
+                        for clause, path, det in out:
+                            fails.append((clause, path, dict(det, read_into=how, document=short(doc))))
+                    if can_update and prev_doc is not None:
+                        targets = [('instance read from another document: ' + short(prev_doc, 500),
+                                    lambda d=prev_doc: X.parse(cls, etree.fromstring(d)))]
+                        if label == 'as written':
+                            targets.append(('generated instance (all members set by the program)' if i == 0 else
+                                            'the previously generated instance', lambda o=prev_obj: o))
+                        elif full_doc is not None and full_doc != prev_doc:
+                            targets.append(('instance read from a fully populated document: ' + short(full_doc, 500),
+                                            lambda d=full_doc: X.parse(cls, etree.fromstring(d))))
+                        count('populated_reads', len(targets))
+                        populated_reads(cls, doc, fc, targets, fails)
+            except Exception as ex:  # noqa: BLE001
+                res['fail'].append({'clause': f'populated read raises {type(ex).__name__}', 'member': last_member(ex),
+                                    'detail': short(traceback.format_exc()[-900:], 900)})
+                bad = True
+            for clause, member, det in fails:
+                res['fail'].append({'clause': clause, 'member': member, 'detail': det})
+                bad = True
+            prev_doc, prev_obj = b1, obj
             res['ok'] += not bad
             if not bad:
-                import hashlib
                 digests.append(hashlib.sha1(b1).hexdigest()[:10])
     return {'results': results, 'stats': stats, 'digests': digests, 'schema_types': len(types), 'schema_elements': len(elems)}
+
+
+def walk_fields(obj, depth=0):
+    """((name, descriptor), raw value) of obj and of its nested structured values"""
+    for np_, raw in zip(X.class_props(type(obj)), X.raw_fields(obj)):
+        yield np_, raw
+        if depth < 5:
+            for x in (raw if isinstance(raw, list) else [raw]):
+                if X.is_struct(x):
+                    yield from walk_fields(x, depth + 1)
 
 
 def last_member(ex):
@@ -317,6 +590,7 @@ class PropCase:
 
 
 CLASS_BY_KEY = {X.class_key(c): c for c in X.all_classes()}
+OLD_SENTINEL = 'VAtom 424242'      # stands for "the object the member held before update_from_node"
 
 
 def lit_tree(t):
@@ -465,19 +739,181 @@ def one_prop_case(rng, owner, name, p, kind, conv, cids):
         read_node = etree.fromstring(orig)      # the model reads the unchanged input in that case
         out_tree = 'None'
         wrote = False
+    absent = slot_name is not None and not is_attr and read_node.find(slot_name) is None
+
+    def read_lit(x):
+        if kind in ('KSub', 'KSubNonEmpty', 'KText') and d is not None and absent and x is not None:
+            return 'VDflt'       # the declared default (the object itself today, a copy of it once repaired)
+        return to_val(x, True)
+
     try:
         rv = p.get_py_value_from_node(X.construct(owner), read_node)
-        absent = slot_name is not None and not is_attr and read_node.find(slot_name) is None
-        if kind in ('KSub', 'KSubNonEmpty', 'KText') and d is not None and absent and rv is not None:
-            rlit = 'VDflt'       # the declared default (the object itself today, a copy of it once repaired)
-        else:
-            rlit = to_val(rv, True)
-        out_val = f'(Some ({rlit}))'
+        out_val = f'(Some ({read_lit(rv)}))'
     except Exception:  # noqa: BLE001
         out_val = 'None'
-    return {'input': f'({plit}, [{"; ".join(pc.tab)}], {vlit}, {lit_tree(before)})',
-            'tree': out_tree, 'val': out_val, 'kind': kind, 'wrote': wrote, 'none_value': v is None}
+    # ---- update_from_node on an instance whose member already holds a value (`old`), against a fresh instance
+    try:
+        old_obj = gen.value(owner, name, p, 0, True, gen.particle(gen.ctype_of(owner), p), 0, 2)
+    except Exception:  # noqa: BLE001
+        old_obj = None
+    if old_obj is None:
+        old_obj = ['old'] if isinstance(p, (xs._ElementListProperty, xs._AttributeListBase)) else 'old'  # noqa: SLF001
+    populated, fresh_inst = X.construct(owner), X.construct(owner)
+    populated.__dict__[p._local_var_name] = old_obj  # noqa: SLF001
+    stale = None
+    try:
+        p.update_from_node(populated, read_node)
+        got = populated.__dict__.get(p._local_var_name)  # noqa: SLF001
+        try:
+            p.update_from_node(fresh_inst, etree.fromstring(etree.tostring(read_node)))
+            fresh_got = fresh_inst.__dict__.get(p._local_var_name)  # noqa: SLF001
+            differs = X.canon(got) != X.canon(fresh_got)
+        except Exception:  # noqa: BLE001
+            fresh_got, differs = None, True
+        if differs:
+            stale = {'populated_with': short(str(X.canon(old_obj)), 200), 'after_update': short(str(X.canon(got)), 200),
+                     'fresh_instance': short(str(X.canon(fresh_got)), 200), 'kept_old_object': got is old_obj,
+                     'node': short(etree.tostring(read_node))}
+        upd = f'(Some ({OLD_SENTINEL if differs and got is old_obj else read_lit(got)}))'
+    except Exception:  # noqa: BLE001
+        upd = 'None'
+        try:
+            p.update_from_node(fresh_inst, etree.fromstring(etree.tostring(read_node)))
+            stale = {'populated_with': short(str(X.canon(old_obj)), 200), 'after_update': 'raises',
+                     'fresh_instance': 'does not raise', 'node': short(etree.tostring(read_node))}
+        except Exception:  # noqa: BLE001
+            pass
+    tab = "; ".join(pc.tab)
+    utree = out_tree[len('(Some '):-1] if wrote else lit_tree(before)
+    return {'input': f'({plit}, [{tab}], {vlit}, {lit_tree(before)})',
+            'tree': out_tree, 'val': out_val, 'kind': kind, 'wrote': wrote, 'none_value': v is None,
+            'uinput': f'({plit}, [{tab}], {OLD_SENTINEL}, {utree})', 'upd': upd, 'stale': stale,
+            'read_none': out_val == '(Some (VNone))'}
 
 
 if req['stream'] == 'props':
     print(json.dumps(run_props()))
+
+
+# ------------------------------------------------------------------------------------------------ own
+# who owns an lxml element: the opaque members (ext:Extension, wsa:ReferenceParameters / wsa:Metadata, any) under
+# sequences of assign / parse / read / write; observation after every operation = content of every document and of
+# the value (vocabulary of coq/XmlStruct/Instance.v [run_own]).  The purity clauses are evaluated here directly.
+OPAQUE = (xs.ExtensionNodeProperty, xs.AnyEtreeNodeListProperty, xs.AnyEtreeNodeProperty)
+
+
+def lit_trees(ts):
+    return '(@nil tree)' if not ts else '[' + '; '.join(ts) + ']'
+
+
+def run_own():
+    rng = random.Random(req['seed'])
+    classes = X.all_classes()
+    cids = {X.class_key(c): i + 1 for i, c in enumerate(classes)}
+    by_cls = {}
+    for c in classes:
+        if X.class_key(c).startswith('soapenvelope.'):
+            continue
+        try:
+            for name, p in X.class_props(c):
+                if isinstance(p, OPAQUE):
+                    by_cls.setdefault(type(p).__name__, []).append((c, name, p))
+        except X.BrokenClass:
+            continue
+    order = sorted(by_cls)
+    cases, hist = [], {}
+    for i in range(req['count']):
+        tn = order[i % len(order)] if rng.random() < 0.5 else 'ExtensionNodeProperty'
+        owner, name, p = rng.choice(by_cls[tn])
+        try:
+            case = one_own_case(rng, owner, name, p, cids)
+        except Exception:  # noqa: BLE001
+            case = {'crash': f'{X.class_key(owner)}.{name}: ' + traceback.format_exc()[-700:]}
+        case['descriptor'] = tn
+        case['member'] = f'{X.class_key(owner)}.{name}'
+        cases.append(case)
+        hist[tn] = hist.get(tn, 0) + 1
+    return {'cases': cases, 'hist': hist}
+
+
+def one_own_case(rng, owner, name, p, cids):
+    gen = G.Gen(rng, max_depth=1, max_list=2)
+    pc = PropCase(rng, gen, cids)
+    qn = p._sub_element_name  # noqa: SLF001
+    local = p._local_var_name  # noqa: SLF001
+    inst = X.construct(owner)
+    inst.__dict__[local] = None
+    docs, ops, obs, obs_plain, why = [], [], [], [], []
+    op_hist = {}
+
+    def container(doc):
+        return doc if qn is None else doc.find(qn)
+
+    def kids(doc):
+        c = container(doc)
+        return [] if c is None else [k for k in c if isinstance(k.tag, str)]
+
+    def snapshot():
+        v = inst.__dict__.get(local)
+        v = [] if v is None else ([v] if isinstance(v, etree._Element) else list(v))  # noqa: SLF001
+        return [[repr(X.canon_xml(k)) for k in kids(dd)] for dd in docs], [repr(X.canon_xml(k)) for k in v], \
+               [[lit_tree(pc.tree(k)) for k in kids(dd)] for dd in docs], [lit_tree(pc.tree(k)) for k in v]
+
+    def new_elements():
+        return [gen.any_element() for _ in range(rng.choice([0, 1, 1, 2, 2, 3]))]
+
+    n_ops = rng.randint(2, 8)
+    prev_docs, prev_val = [], []
+    for step_no in range(n_ops):
+        r = rng.random()
+        if r < 0.2 or (step_no == 0 and r < 0.6):
+            els = new_elements()
+            ops.append(('ONew', 'ONew ' + lit_trees([lit_tree(pc.tree(e)) for e in els])))
+            inst.__dict__[local] = xs.ExtensionLocalValue(els) if isinstance(p, xs.ExtensionNodeProperty) else els
+        elif r < 0.35:
+            els = new_elements()
+            root = etree.Element(etree.QName(X.VERIF_NS, 'Owner'), nsmap=dict(X.NSMAP, vx=X.VERIF_NS))
+            if els:
+                (root if qn is None else etree.SubElement(root, qn)).extend(els)
+            docs.append(etree.fromstring(etree.tostring(root)))
+            ops.append(('OParse', 'OParse ' + lit_trees([lit_tree(pc.tree(e)) for e in kids(docs[-1])])))
+        elif r < 0.55 and docs:
+            dno = rng.randrange(len(docs))
+            inst.__dict__[local] = p.get_py_value_from_node(inst, docs[dno])
+            ops.append(('ORead', f'ORead {dno}%nat'))
+        else:
+            node = etree.Element(etree.QName(X.VERIF_NS, 'Owner'), nsmap=dict(X.NSMAP, vx=X.VERIF_NS))
+            try:
+                p.update_xml_value(inst, node)
+            except ValueError:       # mandatory member without a value: nothing written
+                node = etree.Element(etree.QName(X.VERIF_NS, 'Owner'), nsmap=dict(X.NSMAP, vx=X.VERIF_NS))
+            docs.append(node)
+            ops.append(('OWrite', 'OWrite'))
+        op = ops[-1][0]
+        op_hist[op] = op_hist.get(op, 0) + 1
+        d_plain, v_plain, d_lit, v_lit = snapshot()
+        obs.append('(' + ('(@nil (list tree))' if not d_lit else '[' + '; '.join(lit_trees(x) for x in d_lit) + ']')
+                   + ', ' + lit_trees(v_lit) + ')')
+        obs_plain.append({'op': ops[-1][1] if op in ('ORead', 'OWrite') else f'{op} ({len(els)} elements)',
+                          'documents': d_plain, 'value': v_plain})
+        # ---- the clauses, on the implementation's own trace
+        if d_plain[:len(prev_docs)] != prev_docs:
+            k = next(j for j, (a, b) in enumerate(zip(prev_docs, d_plain)) if a != b)
+            why.append(('an existing document changed', f'step {step_no} ({op}) changed document {k}: '
+                        f'{len(prev_docs[k])} -> {len(d_plain[k])} elements'))
+        if op == 'OWrite':
+            if v_plain != prev_val:
+                why.append(('writing changed the value that was written', f'step {step_no}'))
+            if d_plain[-1] != prev_val:
+                why.append(('the written document does not hold the content of the value', f'step {step_no}'))
+        if op == 'ORead' and v_plain != d_plain[dno]:
+            why.append(('the value read is not the content of the document', f'step {step_no}'))
+        prev_docs, prev_val = d_plain, v_plain
+    return {'input': '[' + '; '.join(o[1] for o in ops) + ']', 'obs': '[' + '; '.join(obs) + ']',
+            'trace': obs_plain, 'why': why, 'ops': op_hist,
+            'two_writes_of_nonempty_value': any(a[0] == b[0] == 'OWrite' and t['value'] for a, b, t in zip(ops, ops[1:], obs_plain[1:])),
+            'write_of_value_read_from_document': any(a[0] == 'ORead' and b[0] == 'OWrite' and t['value'] for a, b, t in zip(ops, ops[1:], obs_plain[1:]))}
+
+
+if req['stream'] == 'own':
+    print(json.dumps(run_own()))
